@@ -42,3 +42,14 @@ claim("C08", "other",
       TB + "A-ARGMIN/A-ARGMAX (first index of the extremum), A-FIND-PEAKS (scipy.signal.find_peaks: increasing interior indices, not lower than "
       "their neighbours, every strict local maximum present).",
       "contract-based deductive verification (z3+cvc5) of the index-range and candidate-selection functions + native contract evaluation over update histories", "DESIGN.md 5/C08")
+
+claim("C10", "other",
+      "Proof: TimeSeries.split under a relative-error model of IEEE division/addition (|delta| <= 2**-53): the number k of sample intervals per "
+      "window equals m whenever L/dt is within m*2**-50 of an integer m <= 10**6 (a length that is an exact multiple of the nominal step counts in "
+      "full although dt = fl(1/fs)), equals floor(L/dt) whenever L/dt is at least 2e-6 away from every integer; ValueError iff the record has "
+      "fewer than k samples; otherwise N // k windows, window j holds the record's samples j*k .. min(j*k+k, N-1) unaltered (k+1 samples, "
+      "boundary sample shared, only a last window ending with the record is one short), same dt, discarded tail < k; loop invariant over a "
+      "symbolic-length list of window objects; record not modified. Bounded (labelled): hvsr_preprocess == orient -> zero-phase Butterworth on "
+      "the whole record -> split -> detrend per window against scipy directly; SeismicRecording3C.split splits the three components identically.",
+      TB + "Float model only for / and + inside split; int/int quotients below 2**53 treated as exact. scipy butter/sosfiltfilt/detrend external.",
+      "contract-based deductive verification with a floating-point error model (z3+cvc5) + bounded native pipeline comparison", "DESIGN.md 5/C10")
